@@ -13,10 +13,14 @@ Definition val := bytes.
 
 Record env := Env {
   e_wrongtype : bool;   (* reflect.TypeOf(v) differs from the store's type (badgerstore only checks) *)
-  e_veto : bool;        (* some BeforeChange callback returns an error for this change (badgerstore only has them) *)
+  e_vetoat : nat;       (* 1-based index, in registration order, of the first BeforeChange listener that returns an
+                           error for this change; 0 = none does (badgerstore only has them).  At most the number
+                           of registered listeners. *)
   e_newid : id          (* what Store.NewID() returns if it is called (mockstore only) *)
 }.
-Definition env0 : env := Env false false [].
+Definition env0 : env := Env false 0%nat [].
+(* some BeforeChange callback returns an error for this change *)
+Definition e_veto (e : env) : bool := negb (Nat.eqb (e_vetoat e) 0).
 
 Inductive op :=
 | OCreate (i : id) (v : val) (e : env)
@@ -89,6 +93,51 @@ Definition bstep (pfx : bytes) (st : kvstate) (o : op) : kvstate * result * list
       | Some b => (st, RVal b, [])
       end
   | OExists i => (st, RBool (is_some (bget pfx st i)), [])
+  end.
+
+(* The BeforeChange calls made by one operation (callBeforeChange inside the DB.Update
+   closure): listener index (1-based, registration order), id, value before, value
+   after.  Every Create/Update/Delete that gets past the type, id and existence checks
+   calls each of the [nl] registered listeners once, in order, up to and including the
+   first one that returns an error. *)
+Definition bccall := (nat * id * option val * option val)%type.
+Fixpoint bc_go (n : nat) (idx : nat) (vetoat : nat) (i : id) (b a : option val) : list bccall :=
+  match n with
+  | O => []
+  | S n' => (idx, i, b, a) :: if Nat.eqb idx vetoat then [] else bc_go n' (S idx) vetoat i b a
+  end.
+Definition bc_calls (nl : nat) (vetoat : nat) (i : id) (b a : option val) : list bccall :=
+  bc_go nl 1 vetoat i b a.
+
+Definition bstep_bc (pfx : bytes) (nl : nat) (st : kvstate) (o : op) : list bccall :=
+  match o with
+  | OCreate i v e =>
+      if e_wrongtype e then []
+      else if is_nil i then []
+      else match alookup (bkey pfx i) st with
+           | Some _ => []
+           | None => bc_calls nl (e_vetoat e) i None (Some v)
+           end
+  | OUpdate i v e =>
+      if e_wrongtype e then []
+      else match bget pfx st i with
+           | None => []
+           | Some b => bc_calls nl (e_vetoat e) i (Some b) (Some v)
+           end
+  | ODelete i e =>
+      match bget pfx st i with
+      | None => []
+      | Some b => bc_calls nl (e_vetoat e) i (Some b) None
+      end
+  | _ => []
+  end.
+
+(* BeforeChange calls along a history *)
+Fixpoint run_bc {St : Type} (step : St -> op -> St * result * list cbcall) (bcf : St -> op -> list bccall)
+    (st : St) (ops : list op) : list (list bccall) :=
+  match ops with
+  | [] => []
+  | o :: r => bcf st o :: run_bc step bcf (fst (fst (step st o))) r
   end.
 
 (* badgerstore as it was before the fix commit "Create returns store.ErrDuplicate and
